@@ -1137,6 +1137,86 @@ theorem viStep_short_actions (m : MDP) (rep : Rep) (ir : Mat) (useTol : Bool) (s
   simp only [viStep, bellmanInplace, mkVec_size, ha]
   rw [mkVec_get _ (by omega), if_neg (by omega), mkVec_get _ (by omega)]
 
+/-! ## PolicyEvaluation under a tolerance -/
+
+/-- the policy Bellman operator is a γ-contraction too -/
+theorem bellmanPi_contraction (m : MDP) (p : Nat → Nat → Rat) (hp : ValidPi m p) (v w : Nat → Rat) (d : Rat)
+    (hγ0 : 0 ≤ m.γ) (hT : ValidT m) (hd : ∀ s, s < m.S → |v s - w s| ≤ d) :
+    ∀ s, s < m.S → |bellmanPi m p v s - bellmanPi m p w s| ≤ m.γ * d := by
+  intro s hs
+  have hb := convex_bounds m.A (p s) (fun a => qBackup m v s a - qBackup m w s a) (-(m.γ * d)) (m.γ * d)
+    (hp.nonneg s) (hp.sum_one s hs)
+    (fun a _ _ => by have := qBackup_lipschitz m v w d hγ0 hT hd s a; rw [abs_le] at this; exact this)
+  have e : sumTo m.A (fun a => (qBackup m v s a - qBackup m w s a) * p s a) = bellmanPi m p v s - bellmanPi m p w s := by
+    unfold bellmanPi
+    have : sumTo m.A (fun a => qBackup m v s a * p s a)
+        = sumTo m.A (fun a => qBackup m w s a * p s a + (qBackup m v s a - qBackup m w s a) * p s a) := by
+      apply sumTo_congr; intro i _; ring
+    rw [this, sumTo_add]; ring
+  rw [e] at hb
+  rw [abs_le]; exact hb
+
+def PETolInv (m : MDP) (p : Mat) (st : PEState) : Prop :=
+  st.timestep = 0 ∨ ∃ prev : Nat → Rat,
+    (∀ s, s < m.S → st.v.get s = bellmanPi m p.get prev s) ∧ st.variation = maxAbsDiff m.S st.v.get prev
+
+theorem peLoop_tol (m : MDP) (rep : Rep) (hrep : RepOK m rep) (tol : Rat) (p : Mat) :
+    ∀ (fuel : Nat) (st : PEState), st.v.size = m.S → PETolInv m p st →
+      PETolInv m p (peLoop m rep (immRewards m rep) true tol p fuel st) ∧
+      ((peLoop m rep (immRewards m rep) true tol p fuel st).variation ≤ tol ∨
+       (peLoop m rep (immRewards m rep) true tol p fuel st).timestep = st.timestep + fuel) ∧
+      (tol < st.variation → 0 < fuel → st.timestep < (peLoop m rep (immRewards m rep) true tol p fuel st).timestep) ∧
+      st.timestep ≤ (peLoop m rep (immRewards m rep) true tol p fuel st).timestep := by
+  intro fuel
+  induction fuel with
+  | zero => intro st _ hinv; exact ⟨hinv, Or.inr rfl, fun _ h => absurd h (lt_irrefl 0), le_refl _⟩
+  | succ fuel ih =>
+    intro st hv hinv
+    by_cases hgt : tol < st.variation
+    · obtain ⟨hv', hval, _, hts, hvar⟩ := peStep_spec m rep hrep true p st hv
+      have hinv' : PETolInv m p (peStep m rep (immRewards m rep) true p st) :=
+        Or.inr ⟨st.v.get, hval, by rw [hvar]; simp⟩
+      obtain ⟨i2, i4, _, i5⟩ := ih _ hv' hinv'
+      have e : peLoop m rep (immRewards m rep) true tol p (fuel+1) st
+          = peLoop m rep (immRewards m rep) true tol p fuel (peStep m rep (immRewards m rep) true p st) := by
+        conv => lhs; unfold peLoop
+        simp [hgt]
+      rw [e]
+      refine ⟨i2, ?_, fun _ _ => by omega, by omega⟩
+      rcases i4 with h | h
+      · exact Or.inl h
+      · exact Or.inr (by rw [h, hts]; omega)
+    · have e : peLoop m rep (immRewards m rep) true tol p (fuel+1) st = st := by
+        conv => lhs; unfold peLoop
+        simp [hgt]
+      rw [e]
+      exact ⟨hinv, Or.inl (not_lt.mp hgt), fun h => absurd h hgt, le_refl _⟩
+
+/-- **pe_stop_bound.**  Tolerance run of PolicyEvaluation (default start, h ≥ 1, valid policy π): ε ≤ tol or horizon used up,
+    and the returned values satisfy the policy's Bellman equation within γ·ε. -/
+theorem pe_stop_bound (m : MDP) (rep : Rep) (hrep : RepOK m rep) (hγ0 : 0 ≤ m.γ) (hT : ValidT m)
+    (h : Nat) (hh : 0 < h) (tol : Rat) (htol0 : 0 < tol) (htol : useTolerance tol = true) (p : Mat) (hp : ValidPi m p.get) :
+    let out := policyEvaluation m rep h tol none p
+    (out.variation ≤ tol ∨ out.timestep = h) ∧
+    (∀ s, s < m.S → |bellmanPi m p.get out.v.get s - out.v.get s| ≤ m.γ * out.variation) := by
+  intro out
+  have hinv0 : PETolInv m p ⟨mkVec m.S (fun _ => 0), makeQ m.S m.A, tol * 2, 0⟩ := Or.inl rfl
+  obtain ⟨hinv, hstop, hprog, _⟩ := peLoop_tol m rep hrep tol p h _ (mkVec_size _ _) hinv0
+  have hstep := hprog (by show tol < tol * 2; linarith) hh
+  constructor
+  · simp only [out, policyEvaluation, htol, if_true]
+    rcases hstop with h1 | h1
+    · exact Or.inl h1
+    · exact Or.inr (by rw [h1]; simp)
+  · intro s hs
+    simp only [out, policyEvaluation, htol, if_true]
+    rcases hinv with h0 | ⟨prev, hp1, hp2⟩
+    · simp only at hstep; omega
+    · rw [hp1 s hs, hp2]
+      apply bellmanPi_contraction m p.get hp _ _ _ hγ0 hT _ s hs
+      intro u hu
+      exact maxAbsDiff_ge m.S _ _ u hu
+
 /-! ## the hypotheses are satisfiable: a concrete non-trivial MDP (2 states, 2 actions, negative reward, self-loop) -/
 
 def exMDP : MDP :=
